@@ -838,6 +838,9 @@ class RT(fw.Prop):
         "and ops/dataflow.rs, ops/controlflow.rs; fails closed on unknown tags); interning of encoded operations and "
         "metadata by canonical JSON text",
         "pydantic (JSON text <-> serial models) is outside the model; validate(dump(s)) == s is checked per case",
+        "harness/props/c02.py: store_snapshot rebuilds the store state of a builder program's HUGR from the public queries "
+        "(sub-offsets = positions in linked_ports; free stack empty because the node table has no hole); Lit.cmds tracks "
+        "metadata dictionaries and the indices of added / inserted nodes from the case data by the allocation rule",
         "jsonschema 4.26 (python3-vt) decides schema validity; its oneOf is short-cut through the discriminator only "
         "where the mapped branches are verified mutually exclusive (harness/c03_schema_server.py); thorough tier "
         "re-validates a sample with the plain validator",
